@@ -397,7 +397,7 @@ func runC07(c *Ctx) error {
 	}
 
 	// ---------------- family 1: rebuild in process ----------------
-	fam := c.Rep.Family("rebuild-in-process", "one in three specs carries custom control fields kept in maps, with names differing only in case; random content lists (genPkgSpec: files, configs, globs, dirs, symlinks, trees, ghosts, docs, per-entry file_info incl. explicit mtimes, deb/rpm compressors; the first spec carries one compressible file larger than every compressor block) with mtime forced to 1700000000, rpm build host fixed, optional scripts, x 5 formats; package A is rebuilt immediately, twice through Config.Get on one configuration held in memory, after the wall-clock second changed (one 1.2 s sleep), under GOMAXPROCS 1/2/4/16, and from the tree root with every source path rewritten to a relative one; every rebuild must be byte-identical to A; one evaluation per (spec, format, variant); non-trivial = A built and has more than one payload member")
+	fam := c.Rep.Family("rebuild-in-process", "one in three specs carries custom control fields kept in maps, with names differing only in case; random content lists (genPkgSpec: files, configs, globs, dirs, symlinks, trees, ghosts, docs, per-entry file_info incl. explicit mtimes, deb/rpm compressors; the first spec carries one compressible file larger than every compressor block) with mtime forced to 1700000000, rpm build host fixed, optional scripts, x 5 formats; package A is rebuilt immediately, twice through Config.Get on one configuration held in memory, after the wall-clock second changed (one 1.2 s sleep), under GOMAXPROCS 1/2/4/16, and from the tree root with every source path rewritten to a relative one; a tree one of whose directories is dated two seconds ahead of the clock is built before and after that instant (x 5 formats); every rebuild must be byte-identical to A; one evaluation per (spec, format, variant); non-trivial = A built and has more than one payload member")
 	n := c.N(25, 400)
 	var built []*c07Built
 	evalKeyExtra := "" // distinguishes the GOMAXPROCS values inside the gomaxprocs variant
@@ -504,6 +504,40 @@ func runC07(c *Ctx) error {
 	for _, b := range built {
 		data, err := BuildPkg(b.format, b.spec.Info())
 		compare(b, "later-wall-clock", data, err)
+	}
+	// a source tree one of whose directories is dated a moment ahead of the build host's clock (a skewed file server, a
+	// touched directory): the first build runs before that instant, the rebuild after it – the bytes must not depend on
+	// which side of a source's date the wall clock is
+	{
+		skew := filepath.Join(c.Tmp, "c07-skew")
+		if err := os.MkdirAll(filepath.Join(skew, "tree", "sub"), 0o755); err != nil {
+			return err
+		}
+		_ = os.WriteFile(filepath.Join(skew, "tree", "sub", "f.txt"), []byte("skew\n"), 0o644)
+		past := time.Unix(1600005000, 0)
+		for _, p := range []string{filepath.Join(skew, "tree", "sub", "f.txt"), filepath.Join(skew, "tree")} {
+			_ = os.Chtimes(p, past, past)
+		}
+		fut := time.Unix(time.Now().Unix()+2, 0)
+		_ = os.Chtimes(filepath.Join(skew, "tree", "sub"), fut, fut)
+		sp := &PkgSpec{Raw: []wire.Content{{Src: filepath.Join(skew, "tree"), Dst: "/opt/skew", Type: "tree"}}, Umask: 0o022, MTime: c07MTime,
+			Describe: map[string]any{"source": "a tree with one directory dated two seconds ahead of the clock at the first build"}}
+		var first []*c07Built
+		for _, f := range Formats {
+			b := &c07Built{spec: sp, format: f, nontr: true}
+			b.key = fmt.Sprintf("%s|%v", f, sp.Input())
+			b.data, b.err = BuildPkg(f, sp.Info())
+			first = append(first, b)
+		}
+		if time.Now().Before(fut) {
+			time.Sleep(time.Until(fut) + 1100*time.Millisecond)
+			for _, b := range first {
+				data, err := BuildPkg(b.format, b.spec.Info())
+				compare(b, "after-a-source-date-has-passed", data, err)
+			}
+		} else {
+			c.Rep.Note("rebuild-in-process: the builds before the skewed directory date took longer than two seconds; variant skipped")
+		}
 	}
 	// scheduling
 	oldProcs := runtime.GOMAXPROCS(0)
